@@ -213,22 +213,37 @@ func runC13(c *Ctx) {
 		c.undecided("C13.1", "parseCallExpr", "not found")
 	} else {
 		got := map[string]bool{}
+		// the switch over the construct's name: a switch on a string whose cases are string constants (the name may be
+		// taken from the selector in place or by a helper); with several, the one that knows most documented constructs
 		ast.Inspect(fd.Body, func(n ast.Node) bool {
 			sw, ok := n.(*ast.SwitchStmt)
-			if !ok {
+			if !ok || sw.Tag == nil {
 				return true
 			}
-			if render(sw.Tag) != "sel.Sel.Name" && !strings.HasSuffix(render(sw.Tag), ".Sel.Name") {
+			if t := p.TypesInfo.TypeOf(sw.Tag); t == nil || t.Underlying().String() != "string" {
 				return true
 			}
+			cand := map[string]bool{}
 			for _, st := range sw.Body.List {
 				for _, e := range st.(*ast.CaseClause).List {
 					if tv, ok := p.TypesInfo.Types[e]; ok && tv.Value != nil {
-						got[strings.Trim(tv.Value.ExactString(), `"`)] = true
+						cand[strings.Trim(tv.Value.ExactString(), `"`)] = true
 					}
 				}
 			}
-			return false
+			score := func(m map[string]bool) int {
+				k := 0
+				for _, d := range documented {
+					if m[d] {
+						k++
+					}
+				}
+				return k
+			}
+			if score(cand) > score(got) {
+				got = cand
+			}
+			return true
 		})
 		for _, d := range documented {
 			c.check(got[d], "C13.1", "parseCallExpr:case:"+d, L.pos(fd.Pos()), "the wire construct "+d+" is recognised by the parser", fmt.Sprintf("cases: %v", sortedKeys(got)))
